@@ -3,6 +3,7 @@ import AwsVerif.Proofs.C13.Query
 import AwsVerif.Proofs.C13.Views
 import AwsVerif.Proofs.C13.Builder
 import AwsVerif.Proofs.C13.Inside
+import AwsVerif.Proofs.C13.GenBridge
 /-!
 # C13 — URI parsing, building and percent-coding are mutually consistent
 
@@ -149,6 +150,78 @@ theorem c13_port_bound :
     refused (parse (b "h:4294967296")) = true ∧
     refused (parse (b "h:18446744073709551616")) = true := by
   decide
+
+/-! ## tie to the layer generated from /repo's current uri.c (`AwsVerif.Gen.UriFns`, rewritten on every check)
+
+Each theorem below equates a definition of the hand-written model with the translation of the C text as it
+is now, so an edit to that expression breaks a named theorem. -/
+
+open AwsVerif.Gen in
+/-- the bytes the two per-character append functions copy unchanged are the model's safe sets (hence, with
+`c13_percent_charset`, RFC 3986 unreserved (∪ '/')) -/
+theorem c13_gen_safe_sets (x : UInt8) :
+    pathSafe x = UriFns.verif_uri_path_safe x.toNat ∧ paramSafe x = UriFns.verif_uri_param_safe x.toNat := by
+  have h1 := gen_pathSafe_all x
+  have h2 := gen_paramSafe_all x
+  simp only [beq_iff_eq] at h1 h2
+  exact ⟨h1, h2⟩
+
+open AwsVerif.Gen in
+/-- `s_to_uppercase_hex` as written is the model's `upHex` (on every byte, in particular on both nibbles) -/
+theorem c13_gen_upper_hex (x : UInt8) : (upHex x).toNat = UriFns.s_to_uppercase_hex x.toNat := by
+  have h := gen_upHex_all x
+  simpa using h
+
+open AwsVerif.Gen in
+/-- the delimiter test in the loop of `s_parse_scheme` is the model's `isSchemeDelim` -/
+theorem c13_gen_scheme_delim (x : UInt8) : isSchemeDelim x = UriFns.verif_uri_scheme_delim x.toNat := by
+  have h := gen_schemeDelim_all x
+  simpa using h
+
+open AwsVerif.Gen in
+/-- the port refusal of `s_parse_authority` is `> UINT32_MAX`, the test `parsePortAt` makes -/
+theorem c13_gen_port_bound (v : Nat) : UriFns.verif_uri_port_too_big v = decide (v > UINT32_MAX) :=
+  gen_port_too_big v
+
+open AwsVerif.Gen in
+/-- the `buffer_size` computation of `aws_uri_init_from_builder_options` as written is the model's
+`builderSize` (per-parameter increment `key.len + value.len + 2`) -/
+theorem c13_gen_size_estimate (o : BuilderOptions) (h : builderSize o < 2 ^ 64) :
+    UriFns.verif_uri_size_estimate o.scheme.length o.host.length o.port o.path.length
+      (if o.params.isSome then 1 else 0) (o.params.getD []).length (paramsEstimate (o.params.getD [])) o.query.length
+      = builderSize o ∧
+    ∀ k v : Nat, k + v + 2 < 2 ^ 64 → UriFns.verif_uri_param_estimate k v = k + v + 2 :=
+  ⟨gen_size_estimate o h, gen_param_estimate⟩
+
+open AwsVerif.Gen in
+/-- `PORT_BUFFER_SIZE` (reservation for the port and size of the `snprintf` buffer) covers the worst case
+':' + 10 digits resp. 10 digits + NUL for every 32-bit port, with equality for 4294967295; and the generated
+estimate as a whole covers the text the builder writes (query-string form). -/
+theorem c13_gen_port_reservation :
+    UriFns.PORT_BUFFER_SIZE = PORT_BUFFER_SIZE ∧
+    (∀ p, p < 2 ^ 32 → 1 + (decDigits p).length ≤ UriFns.PORT_BUFFER_SIZE) ∧
+    1 + (decDigits 4294967295).length = UriFns.PORT_BUFFER_SIZE ∧
+    (∀ o : BuilderOptions, o.params = none → o.port < 2 ^ 32 → builderSize o < 2 ^ 64 →
+      (plainText o ++ (if o.query.length ≠ 0 then 63 :: o.query else [])).length ≤
+        UriFns.verif_uri_size_estimate o.scheme.length o.host.length o.port o.path.length 0 0 0 o.query.length) := by
+  refine ⟨rfl, ?_, by decide, gen_estimate_covers_query⟩
+  intro p hp
+  have := decDigits_length_le p hp
+  show 1 + (decDigits p).length ≤ 11
+  omega
+
+open AwsVerif.Gen in
+/-- both coders reserve with `aws_byte_buf_reserve_relative` (relative to the current length: the model's
+`reserveRelative`), the encoder for `3 · cursor->len` — enough for every per-character write — the decoder
+for `cursor->len`; and each public encoder passes its own per-character function -/
+theorem c13_gen_reservation :
+    UriFns.encodeReserveCallee = "aws_byte_buf_reserve_relative" ∧
+    UriFns.decodeReserveCallee = "aws_byte_buf_reserve_relative" ∧ UriFns.decodeReserveArg = "cursor->len" ∧
+    UriFns.encodeReserveFactor = 3 ∧
+    (∀ (safe : UInt8 → Bool) (x : UInt8), (encChar safe x).length ≤ UriFns.encodeReserveFactor) ∧
+    UriFns.encodePathAppender = "s_unchecked_append_canonicalized_path_character" ∧
+    UriFns.encodeParamAppender = "s_raw_append_canonicalized_param_character" :=
+  ⟨rfl, rfl, rfl, rfl, fun safe x => encChar_length_le safe x, rfl, rfl⟩
 
 /-! ## the hypotheses are satisfiable by non-trivial tuples -/
 
